@@ -55,6 +55,12 @@ where
 
     // Batch size for draining commit notifications
     max_batch_size: usize,
+
+    /// Highest log index already handed to the SM worker. `pending_range()` starts at
+    /// `last_applied + 1`, and `last_applied` only advances once the worker has finished the
+    /// chunk, so without this a commit notification that arrives while a chunk is still being
+    /// applied would send the same entries to the state machine a second time.
+    last_dispatched: std::sync::atomic::AtomicU64,
 }
 
 #[async_trait]
@@ -134,6 +140,7 @@ where
             sm_apply_tx: deps.sm_apply_tx,
             shutdown_signal: deps.shutdown_signal,
             max_batch_size: deps.max_batch_size,
+            last_dispatched: std::sync::atomic::AtomicU64::new(0),
         }
     }
 
@@ -153,6 +160,14 @@ where
         let Some(range) = pending_range else {
             return Ok(());
         };
+
+        // Skip what is already queued at the SM worker (see `last_dispatched`).
+        let start = (*range.start())
+            .max(self.last_dispatched.load(std::sync::atomic::Ordering::Acquire) + 1);
+        if start > *range.end() {
+            return Ok(());
+        }
+        let range = start..=*range.end();
         let entries = self.raft_log.get_entries_range(range)?;
 
         debug!(
@@ -284,6 +299,7 @@ where
     ) -> Result<()> {
         if !batch.is_empty() {
             let entries = std::mem::take(batch);
+            let last_index = entries.last().map(|e| e.index).unwrap_or(0);
             trace!(
                 "[Node-{}] Sending batch to SM Worker: {} entries",
                 self.my_id,
@@ -295,6 +311,7 @@ where
                 error!("[Node-{}] SM Worker channel closed: {:?}", self.my_id, e);
                 crate::Error::Fatal(format!("SM Worker channel closed: {e:?}"))
             })?;
+            self.last_dispatched.fetch_max(last_index, std::sync::atomic::Ordering::AcqRel);
         }
         Ok(())
     }
